@@ -32,12 +32,32 @@ impl PK {
     /// (caller-side preparation, argument expression, Debug string)
     fn arg(self, k: usize) -> (String, String, String) {
         match self {
-            PK::U8 => (String::new(), format!("{}u8", 10 + k), format!("{}", 10 + k)),
-            PK::I32 => (String::new(), format!("-{}i32", 100 + k), format!("-{}", 100 + k)),
+            PK::U8 => (
+                String::new(),
+                format!("{}u8", 10 + k),
+                format!("{}", 10 + k),
+            ),
+            PK::I32 => (
+                String::new(),
+                format!("-{}i32", 100 + k),
+                format!("-{}", 100 + k),
+            ),
             PK::Str => (String::new(), format!("\"str{k}\""), format!("\"str{k}\"")),
-            PK::RefU32 => (format!("let r{k}: u32 = {};\n", 1000 + k), format!("&r{k}"), format!("{}", 1000 + k)),
-            PK::MutU32 => (format!("let mut m{k}: u32 = {};\n", 2000 + k), format!("&mut m{k}"), format!("{}", 2000 + k)),
-            PK::String => (String::new(), format!("String::from(\"s{k}\")"), format!("\"s{k}\"")),
+            PK::RefU32 => (
+                format!("let r{k}: u32 = {};\n", 1000 + k),
+                format!("&r{k}"),
+                format!("{}", 1000 + k),
+            ),
+            PK::MutU32 => (
+                format!("let mut m{k}: u32 = {};\n", 2000 + k),
+                format!("&mut m{k}"),
+                format!("{}", 2000 + k),
+            ),
+            PK::String => (
+                String::new(),
+                format!("String::from(\"s{k}\")"),
+                format!("\"s{k}\""),
+            ),
         }
     }
 }
@@ -65,6 +85,9 @@ pub struct MethodSpec {
     pub params: Vec<PK>,
     pub asy: Asy,
     pub reg: Reg,
+    /// the method is a provided one (it has a default body that logs DEFAULT<i> and returns 77)
+    #[serde(default)]
+    pub has_default: bool,
 }
 
 #[derive(Clone, Debug, PartialEq, Eq, Hash, Serialize, Deserialize)]
@@ -90,6 +113,11 @@ impl UnmockCase {
     }
     fn target_spec(&self) -> &MethodSpec {
         &self.methods[self.target]
+    }
+    /// Documented "delegation by default": a provided method that no clause mentions runs its
+    /// default body (also in a partial mock); it is not a fall-through to the real function.
+    pub fn default_body_expected(&self) -> bool {
+        self.target_spec().has_default && self.partial && !self.mention_unmatched
     }
     /// what the real function of the target logs
     pub fn expected_log(&self) -> Option<String> {
@@ -119,12 +147,19 @@ impl UnmockCase {
 }
 
 fn sig(i: usize, m: &MethodSpec) -> String {
-    let params: String = m.params.iter().enumerate().map(|(k, p)| format!(", a{k}: {}", p.ty())).collect();
+    let params: String = m
+        .params
+        .iter()
+        .enumerate()
+        .map(|(k, p)| format!(", a{k}: {}", p.ty()))
+        .collect();
     let recv = if m.mut_recv { "&mut self" } else { "&self" };
     match m.asy {
         Asy::Sync => format!("fn m{i}({recv}{params}) -> u32"),
         Asy::AsyncFn => format!("async fn m{i}({recv}{params}) -> u32"),
-        Asy::ImplFuture => format!("fn m{i}({recv}{params}) -> impl std::future::Future<Output = u32>"),
+        Asy::ImplFuture => {
+            format!("fn m{i}({recv}{params}) -> impl std::future::Future<Output = u32>")
+        }
     }
 }
 
@@ -136,7 +171,11 @@ pub fn source(c: &UnmockCase) -> String {
         .iter()
         .enumerate()
         .map(|(slot, r)| {
-            let idx = if c.recursion.is_some() { slot as isize - 1 } else { slot as isize };
+            let idx = if c.recursion.is_some() {
+                slot as isize - 1
+            } else {
+                slot as isize
+            };
             if idx < 0 {
                 return "real_rec".to_string();
             }
@@ -146,17 +185,33 @@ pub fn source(c: &UnmockCase) -> String {
                 Reg::Path => format!("real_{i}"),
                 Reg::Explicit(args) => format!(
                     "real_{i}({})",
-                    args.iter().map(|a| match a { None => "self".to_string(), Some(k) => format!("a{k}") }).collect::<Vec<_>>().join(", ")
+                    args.iter()
+                        .map(|a| match a {
+                            None => "self".to_string(),
+                            Some(k) => format!("a{k}"),
+                        })
+                        .collect::<Vec<_>>()
+                        .join(", ")
                 ),
             }
         })
         .collect();
-    s.push_str(&format!("#[unimock(api=M, unmock_with=[{}])]\npub trait Tr {{\n", regs.join(", ")));
+    s.push_str(&format!(
+        "#[unimock(api=M, unmock_with=[{}])]\npub trait Tr {{\n",
+        regs.join(", ")
+    ));
     if c.recursion.is_some() {
         s.push_str("    fn rec(&self, n: u32) -> u32;\n");
     }
     for (i, m) in c.methods.iter().enumerate() {
-        s.push_str(&format!("    {};\n", sig(i, m)));
+        if m.has_default {
+            s.push_str(&format!(
+                "    {} {{ log(\"DEFAULT{i}\".to_string()); 77 }}\n",
+                sig(i, m)
+            ));
+        } else {
+            s.push_str(&format!("    {};\n", sig(i, m)));
+        }
     }
     s.push_str("}\n\n");
     if c.recursion.is_some() {
@@ -166,19 +221,53 @@ pub fn source(c: &UnmockCase) -> String {
         let (params, fmt, args): (String, String, String) = match &m.reg {
             Reg::None => continue,
             Reg::Path => {
-                let self_ty = if m.mut_recv { "&mut Unimock" } else { "&Unimock" };
+                let self_ty = if m.mut_recv {
+                    "&mut Unimock"
+                } else {
+                    "&Unimock"
+                };
                 (
-                    std::iter::once(format!("_u: {self_ty}")).chain(m.params.iter().enumerate().map(|(k, p)| format!("a{k}: {}", p.ty()))).collect::<Vec<_>>().join(", "),
-                    std::iter::once("self".to_string()).chain(m.params.iter().map(|_| "{:?}".to_string())).collect::<Vec<_>>().join("|"),
+                    std::iter::once(format!("_u: {self_ty}"))
+                        .chain(
+                            m.params
+                                .iter()
+                                .enumerate()
+                                .map(|(k, p)| format!("a{k}: {}", p.ty())),
+                        )
+                        .collect::<Vec<_>>()
+                        .join(", "),
+                    std::iter::once("self".to_string())
+                        .chain(m.params.iter().map(|_| "{:?}".to_string()))
+                        .collect::<Vec<_>>()
+                        .join("|"),
                     (0..m.params.len()).map(|k| format!(", a{k}")).collect(),
                 )
             }
             Reg::Explicit(list) => {
-                let self_ty = if m.mut_recv { "&mut Unimock" } else { "&Unimock" };
+                let self_ty = if m.mut_recv {
+                    "&mut Unimock"
+                } else {
+                    "&Unimock"
+                };
                 (
-                    list.iter().enumerate().map(|(j, a)| match a { None => format!("_u{j}: {self_ty}"), Some(k) => format!("a{k}: {}", m.params[*k].ty()) }).collect::<Vec<_>>().join(", "),
-                    list.iter().map(|a| match a { None => "self".to_string(), Some(_) => "{:?}".to_string() }).collect::<Vec<_>>().join("|"),
-                    list.iter().filter_map(|a| a.map(|k| format!(", a{k}"))).collect(),
+                    list.iter()
+                        .enumerate()
+                        .map(|(j, a)| match a {
+                            None => format!("_u{j}: {self_ty}"),
+                            Some(k) => format!("a{k}: {}", m.params[*k].ty()),
+                        })
+                        .collect::<Vec<_>>()
+                        .join(", "),
+                    list.iter()
+                        .map(|a| match a {
+                            None => "self".to_string(),
+                            Some(_) => "{:?}".to_string(),
+                        })
+                        .collect::<Vec<_>>()
+                        .join("|"),
+                    list.iter()
+                        .filter_map(|a| a.map(|k| format!(", a{k}")))
+                        .collect(),
                 )
             }
         };
@@ -206,9 +295,13 @@ pub fn source(c: &UnmockCase) -> String {
     };
     let mut clauses: Vec<String> = vec![];
     if !c.partial {
-        clauses.push(format!("M::m{t}.each_call(&|m| m.func(|{pat}, _| true)).applies_unmocked()"));
+        clauses.push(format!(
+            "M::m{t}.each_call(&|m| m.func(|{pat}, _| true)).applies_unmocked()"
+        ));
     } else if c.mention_unmatched {
-        clauses.push(format!("M::m{t}.each_call(&|m| m.func(|{pat}, _| false)).returns(0u32)"));
+        clauses.push(format!(
+            "M::m{t}.each_call(&|m| m.func(|{pat}, _| false)).returns(0u32)"
+        ));
     }
     let ctor = if c.partial { "new_partial" } else { "new" };
     let clause = match clauses.len() {
@@ -216,10 +309,22 @@ pub fn source(c: &UnmockCase) -> String {
         1 => clauses[0].clone(),
         _ => format!("({})", clauses.join(",\n        ")),
     };
-    s.push_str(&format!("    let mut u = Unimock::{ctor}({clause}).no_verify_in_drop();\n"));
+    s.push_str(&format!(
+        "    let mut u = Unimock::{ctor}({clause}).no_verify_in_drop();\n"
+    ));
     let recv = if m.mut_recv { "&mut u" } else { "&u" };
-    let call = format!("<Unimock as Tr>::m{t}({recv}{})", arg_exprs.iter().map(|e| format!(", {e}")).collect::<String>());
-    let call = if m.asy == Asy::Sync { call } else { format!("block_on({call})") };
+    let call = format!(
+        "<Unimock as Tr>::m{t}({recv}{})",
+        arg_exprs
+            .iter()
+            .map(|e| format!(", {e}"))
+            .collect::<String>()
+    );
+    let call = if m.asy == Asy::Sync {
+        call
+    } else {
+        format!("block_on({call})")
+    };
     s.push_str(&format!(
         "    let r = std::panic::catch_unwind(std::panic::AssertUnwindSafe(|| {call}));\n    let ret = match r {{ Ok(v) => format!(\"{{}}\", v), Err(p) => format!(\"PANIC:{{}}\", p.downcast_ref::<String>().cloned().unwrap_or_default()) }};\n"
     ));
@@ -242,54 +347,98 @@ pub fn judge(c: &UnmockCase, line: &str) -> Result<CaseInfo, String> {
     if parts.len() != 5 {
         return Err(format!("HARNESS: malformed output {line:?}"));
     }
-    let log: Vec<&str> = if parts[0].is_empty() { vec![] } else { parts[0].split('\u{2}').collect() };
+    let log: Vec<&str> = if parts[0].is_empty() {
+        vec![]
+    } else {
+        parts[0].split('\u{2}').collect()
+    };
     let m = c.target_spec();
     let desc = format!(
         "`{}` registered as {:?} in a {} mock",
         sig(c.target, m),
         m.reg,
-        if c.partial { "partial" } else { "strict (applies_unmocked)" }
-    );
-    match c.expected_log() {
-        None => {
-            if !parts[1].starts_with("PANIC:") {
-                return Err(format!("{desc}: no real function is registered, but the call returned {}", parts[1]));
-            }
-            if !parts[1].contains(&format!("Tr::m{}", c.target)) {
-                return Err(format!("{desc}: the panic does not name the method: {}", parts[1]));
-            }
-            if !log.is_empty() {
-                return Err(format!("{desc}: a real function ran although none is registered for the method: {log:?}"));
-            }
+        if c.partial {
+            "partial"
+        } else {
+            "strict (applies_unmocked)"
         }
-        Some(expected) => {
-            if log != vec![expected.as_str()] {
-                return Err(format!("{desc}: real function invocations {log:?}, expected exactly one: {expected:?}"));
+    );
+    if c.default_body_expected() {
+        if log != vec![format!("DEFAULT{}", c.target).as_str()] || parts[1] != "77" {
+            return Err(format!(
+                "{desc}: an unmentioned provided method must run its default body (documented delegation by default): log {log:?}, returned {}",
+                parts[1]
+            ));
+        }
+    } else {
+        match c.expected_log() {
+            None => {
+                if !parts[1].starts_with("PANIC:") {
+                    return Err(format!(
+                        "{desc}: no real function is registered, but the call returned {}",
+                        parts[1]
+                    ));
+                }
+                if !parts[1].contains(&format!("Tr::m{}", c.target)) {
+                    return Err(format!(
+                        "{desc}: the panic does not name the method: {}",
+                        parts[1]
+                    ));
+                }
+                if !log.is_empty() {
+                    return Err(format!("{desc}: a real function ran although none is registered for the method: {log:?}"));
+                }
             }
-            let want = format!("{}", fnv(&expected));
-            if parts[1] != want {
-                return Err(format!("{desc}: the call returned {}, the real function returned {want}", parts[1]));
+            Some(expected) => {
+                if log != vec![expected.as_str()] {
+                    return Err(format!("{desc}: real function invocations {log:?}, expected exactly one: {expected:?}"));
+                }
+                let want = format!("{}", fnv(&expected));
+                if parts[1] != want {
+                    return Err(format!(
+                        "{desc}: the call returned {}, the real function returned {want}",
+                        parts[1]
+                    ));
+                }
             }
         }
     }
     if let Some(d) = c.recursion {
         let fact: u64 = (1..=d as u64).product::<u64>() * 100;
         if parts[2] != format!("{fact}") {
-            return Err(format!("recursion depth {d} through the mock returned {}, expected {fact}", parts[2]));
+            return Err(format!(
+                "recursion depth {d} through the mock returned {}, expected {fact}",
+                parts[2]
+            ));
         }
-        let rec_log: Vec<String> = if parts[3].is_empty() { vec![] } else { parts[3].split('\u{2}').map(|s| s.to_string()).collect() };
+        let rec_log: Vec<String> = if parts[3].is_empty() {
+            vec![]
+        } else {
+            parts[3].split('\u{2}').map(|s| s.to_string()).collect()
+        };
         let want: Vec<String> = (1..=d as u32).rev().map(|n| format!("REC|{n}")).collect();
         if rec_log != want {
-            return Err(format!("recursion depth {d}: real function invocations {rec_log:?}, expected {want:?}"));
+            return Err(format!(
+                "recursion depth {d}: real function invocations {rec_log:?}, expected {want:?}"
+            ));
         }
         if parts[4] != "ok" {
             // the base-case pattern (exactly once) must have been counted by the same mock state
-            return Err(format!("recursion depth {d}: verification after the recursive call failed: {}", parts[4]));
+            return Err(format!(
+                "recursion depth {d}: verification after the recursive call failed: {}",
+                parts[4]
+            ));
         }
     }
-    let regs: std::collections::BTreeSet<String> = c.methods.iter().map(|m| format!("{:?}", std::mem::discriminant(&m.reg))).collect();
+    let regs: std::collections::BTreeSet<String> = c
+        .methods
+        .iter()
+        .map(|m| format!("{:?}", std::mem::discriminant(&m.reg)))
+        .collect();
     let explicit = matches!(m.reg, Reg::Explicit(_));
-    let nt = (c.methods.len() >= 2 && regs.len() >= 2) || explicit || c.recursion.map(|d| d >= 2).unwrap_or(false);
+    let nt = (c.methods.len() >= 2 && regs.len() >= 2)
+        || explicit
+        || c.recursion.map(|d| d >= 2).unwrap_or(false);
     Ok(CaseInfo::new(nt)
         .class(match &m.reg {
             Reg::None => "reg:_",
@@ -299,6 +448,15 @@ pub fn judge(c: &UnmockCase, line: &str) -> Result<CaseInfo, String> {
         .class_if(c.partial && !c.mention_unmatched, "partial:unmentioned")
         .class_if(c.partial && c.mention_unmatched, "partial:unmatched")
         .class_if(!c.partial, "strict:applies_unmocked")
+        .class_if(m.has_default, "provided-method(default body)")
+        .class_if(
+            m.has_default && c.partial && c.mention_unmatched,
+            "provided+mentioned-unmatched->real-fn",
+        )
+        .class_if(
+            c.default_body_expected(),
+            "provided+unmentioned->default-body",
+        )
         .class_if(m.mut_recv, "recv:&mut self")
         .class_if(m.asy != Asy::Sync, "async")
         .class_if(c.recursion.is_some(), "recursion-through-mock")
@@ -306,15 +464,23 @@ pub fn judge(c: &UnmockCase, line: &str) -> Result<CaseInfo, String> {
 }
 
 fn method_strategy() -> impl Strategy<Value = MethodSpec> {
-    let pk = prop_oneof![Just(PK::U8), Just(PK::I32), Just(PK::Str), Just(PK::RefU32), Just(PK::MutU32), Just(PK::String)];
+    let pk = prop_oneof![
+        Just(PK::U8),
+        Just(PK::I32),
+        Just(PK::Str),
+        Just(PK::RefU32),
+        Just(PK::MutU32),
+        Just(PK::String)
+    ];
     (
         any::<bool>(),
         proptest::collection::vec((pk, any::<bool>()), 0..=4),
         prop_oneof![3 => Just(Asy::Sync), 1 => Just(Asy::AsyncFn), 1 => Just(Asy::ImplFuture)],
         0..4u8,
         proptest::collection::vec(any::<u8>(), 6),
+        proptest::bool::weighted(0.35),
     )
-        .prop_map(|(mut_recv, params, mut asy, reg_sel, perm)| {
+        .prop_map(|(mut_recv, params, mut asy, reg_sel, perm, has_default)| {
             let mut ps: Vec<PK> = vec![];
             for (p, same) in params {
                 if same && !ps.is_empty() {
@@ -332,7 +498,9 @@ fn method_strategy() -> impl Strategy<Value = MethodSpec> {
                 1 => Reg::Path,
                 _ => {
                     // permutation / subset of [self, a0..an): each entry used at most once
-                    let mut items: Vec<Option<usize>> = std::iter::once(None).chain((0..ps.len()).map(Some)).collect();
+                    let mut items: Vec<Option<usize>> = std::iter::once(None)
+                        .chain((0..ps.len()).map(Some))
+                        .collect();
                     let mut out = vec![];
                     for (j, sel) in perm.iter().enumerate() {
                         if items.is_empty() {
@@ -347,36 +515,78 @@ fn method_strategy() -> impl Strategy<Value = MethodSpec> {
                     Reg::Explicit(out)
                 }
             };
-            MethodSpec { mut_recv, params: ps, asy, reg }
+            let has_default = has_default && asy != Asy::ImplFuture;
+            MethodSpec {
+                mut_recv,
+                params: ps,
+                asy,
+                reg,
+                has_default,
+            }
         })
 }
 
 pub fn case_strategy() -> impl Strategy<Value = UnmockCase> {
-    (proptest::collection::vec(method_strategy(), 1..=4), any::<u8>(), any::<bool>(), any::<bool>(), proptest::option::weighted(0.35, 0..=6u8)).prop_map(
-        |(methods, t, partial, mention_unmatched, recursion)| {
-            let target = t as usize % methods.len();
-            UnmockCase { methods, target, partial, mention_unmatched, recursion }
-        },
+    (
+        proptest::collection::vec(method_strategy(), 1..=4),
+        any::<u8>(),
+        any::<bool>(),
+        any::<bool>(),
+        proptest::option::weighted(0.35, 0..=6u8),
     )
+        .prop_map(|(methods, t, partial, mention_unmatched, recursion)| {
+            let target = t as usize % methods.len();
+            UnmockCase {
+                methods,
+                target,
+                partial,
+                mention_unmatched,
+                recursion,
+            }
+        })
 }
 
 pub const RULE: &str = "programs = generated traits of 1-4 methods (plus an optional recursive method), each with its own unmock_with registration {_, path, path(permuted / subset of self and the parameters)}, &self or &mut self receivers, 0-4 parameters from {u8, i32, &str, &u32, &mut u32, String} with adjacent parameters often sharing a type, sync / async fn / -> impl Future; the target method is resolved to the real implementation through a partial mock (unmentioned or mentioned-but-unmatched) or through applies_unmocked() in a strict mock; recursion depth 0..6 through the mock with the base case answered by a counted pattern. Non-trivial = >= 2 methods with different registration forms, or explicit parameters, or recursion depth >= 2; distinct = distinct case";
 
 fn spec<'a>() -> Spec<'a, UnmockCase> {
-    Spec { project: "C16", prelude: crate::c05::PRELUDE, source: &source, judge: &judge, nbins: 16, max_shrink_steps: 30, extra_deps: "" }
+    Spec {
+        project: "C16",
+        prelude: crate::c05::PRELUDE,
+        source: &source,
+        judge: &judge,
+        nbins: 16,
+        max_shrink_steps: 30,
+        extra_deps: "",
+    }
 }
 
 pub fn run(ctx: &Ctx) -> Verdict {
     let mut v = Verdict::new("exploration", RULE);
     v.explanation = "Recording real functions: the log must contain exactly one invocation of the function registered for the called method (position in the unmock_with list), with `self` and the caller's arguments in the registered order; the call returns the function's result unchanged (awaited for async); without registration the call panics naming Trait::method and no function runs; recursive real functions call back into the same mock, whose counted base-case pattern must verify.".into();
-    v.assumptions = vec!["shapes rustc rejects are outside the domain (counted; > 5% = inconclusive)".into()];
-    v.subs.push(crate::replay_corpus(ctx, &|sub, case| replay(sub, case)));
+    v.assumptions =
+        vec!["shapes rustc rejects are outside the domain (counted; > 5% = inconclusive)".into()];
+    v.subs
+        .push(crate::replay_corpus(ctx, &|sub, case| replay(sub, case)));
     let n = ctx.tier.pick(1280, 24_000) as usize;
     let batches = n.div_ceil(1600);
     for b in 0..batches {
-        let sub = if batches == 1 { "registrations".to_string() } else { format!("registrations-{b}") };
-        v.subs.push(e2::run(ctx, &sub, case_strategy(), (n / batches).max(1), &spec()));
-        if v.subs.last().map(|s| s.failure.is_some() || s.inconclusive.is_some()).unwrap_or(false) {
+        let sub = if batches == 1 {
+            "registrations".to_string()
+        } else {
+            format!("registrations-{b}")
+        };
+        v.subs.push(e2::run(
+            ctx,
+            &sub,
+            case_strategy(),
+            (n / batches).max(1),
+            &spec(),
+        ));
+        if v.subs
+            .last()
+            .map(|s| s.failure.is_some() || s.inconclusive.is_some())
+            .unwrap_or(false)
+        {
             break;
         }
     }
@@ -384,7 +594,8 @@ pub fn run(ctx: &Ctx) -> Verdict {
 }
 
 pub fn replay(_sub: &str, case: Value) -> Result<(), String> {
-    let c: UnmockCase = serde_json::from_value(case).map_err(|e| format!("HARNESS: bad case: {e}"))?;
+    let c: UnmockCase =
+        serde_json::from_value(case).map_err(|e| format!("HARNESS: bad case: {e}"))?;
     match e2::run_single(&spec(), &c) {
         Ok(r) => r.map(|_| ()),
         Err(e) => Err(format!("HARNESS: {e}")),
